@@ -3,6 +3,8 @@ import LinOp.C03.ProofsOps
 import LinOp.C03.ProofsRange
 import LinOp.C03.ProofsFront
 import LinOp.Generated.C03Getitem
+import LinOp.C03.ProofsGetitem
+import LinOp.Generated.C03SlicePath
 /-!
 C03 — indexing matches torch indexing of the dense matrix.  Property theorems only.
 
@@ -576,5 +578,174 @@ theorem generated_arith_table : LinOp.Generated.C03.table = [
       ["if col_index < 0: col_index += self.size(-1)", "if row_index < 0: row_index += self.size(-2)",
        "slice(col_index, col_index + 1, None)", "slice(row_index, row_index + 1, None)"])] := by
   decide +kernel
+
+/-! ## Extension session 5: the `_getitem` (slice) path -/
+
+/-- **BlockDiag block-aligned shortcut, decision part**: whenever `_getitem_block_aligned` does not return `None`
+(any block size `m × n`, any bounds), the four bounds are exactly the block multiples `m·b0, m·b1, n·b0, n·b1` of the
+block slice `b0:b1` it hands to the base operator. -/
+theorem blockDiag_aligned_bounds (m n rs re cs ce b0 b1 : Nat)
+    (h : blockDiagAligned m n rs re cs ce = some (b0, b1)) :
+    rs = m * b0 ∧ re = m * b1 ∧ cs = n * b0 ∧ ce = n * b1 :=
+  blockDiagAligned_some m n rs re cs ce b0 b1 h
+
+/-- **BlockDiag block-aligned shortcut = torch slicing of the dense matrix** (any number `k` of blocks, any block size,
+any batch index, any base operator): if the shortcut answers with block slice `b0:b1` and the recursive
+`base._getitem(noop, noop, *batch, b0:b1)` denotes blocks `b0 … b1-1` of the base, then
+`BlockDiag(new_base)` holds at `(i, j)` the entry `(row_start + i, col_start + j)` of the original block-diagonal matrix,
+for every `i < row_end - row_start`, `j < col_end - col_start`. -/
+theorem blockDiag_aligned_getitem (m n k rs re cs ce b0 b1 : Nat) (hm : 0 < m) (hn : 0 < n) (base sub : Opv)
+    (hbR : base.R = m) (hbC : base.C = n) (hsR : sub.R = m) (hsC : sub.C = n)
+    (hal : blockDiagAligned m n rs re cs ce = some (b0, b1)) (hre : re ≤ m * k) (hlt : rs ≤ re)
+    (hsub : ∀ b blk i j, blk < b1 - b0 → i < m → j < n → sub.den (b ++ [blk]) i j = base.den (b ++ [b0 + blk]) i j) :
+    ∀ b i j, i < re - rs → j < ce - cs →
+      (Opv.blockDiag (b1 - b0) sub).den b i j = (Opv.blockDiag k base).den b (rs + i) (cs + j) := by
+  obtain ⟨e1, e2, e3, e4⟩ := blockDiagAligned_some m n rs re cs ce b0 b1 hal
+  subst e1 e2 e3 e4
+  have h01 : b0 ≤ b1 := Nat.le_of_mul_le_mul_left hlt hm
+  have h1k : b1 ≤ k := Nat.le_of_mul_le_mul_left hre hm
+  intro b i j hi hj
+  have em : m * b1 - m * b0 = m * (b1 - b0) := (Nat.mul_sub m b1 b0).symm
+  have en : n * b1 - n * b0 = n * (b1 - b0) := (Nat.mul_sub n b1 b0).symm
+  exact blockDiag_window m n k b0 b1 hm hn base sub hbR hbC hsR hsC h01 h1k hsub b i j (by omega) (by omega)
+
+example : blockDiagAligned 2 3 2 6 3 9 = some (1, 3) := by decide
+example : blockDiagAligned 2 3 2 6 3 6 = none := by decide
+example : blockDiagAligned 2 3 1 6 3 9 = none := by decide
+
+/-- **BlockInterleaved block-aligned shortcut, decision part** -/
+theorem blockInter_aligned_bounds (k rs re cs ce r0 r1 c0 c1 : Nat)
+    (h : blockInterAligned k rs re cs ce = some ((r0, r1), (c0, c1))) :
+    rs = k * r0 ∧ re = k * r1 ∧ cs = k * c0 ∧ ce = k * c1 ∧ re - rs = ce - cs :=
+  blockInterAligned_some k rs re cs ce r0 r1 c0 c1 h
+
+/-- **BlockInterleaved block-aligned shortcut = torch slicing of the dense matrix** (any `k`, any batch index, any base):
+if the shortcut answers with base slices `r0:r1`, `c0:c1` and the recursive `base._getitem(r0:r1, c0:c1, *batch, noop)`
+denotes that window of every block, then `BlockInterleaved(new_base)` holds at `(i, j)` the entry
+`(row_start + i, col_start + j)` of the original interleaved matrix. -/
+theorem blockInter_aligned_getitem (k rs re cs ce r0 r1 c0 c1 : Nat) (hk : 0 < k) (base sub : Opv)
+    (hal : blockInterAligned k rs re cs ce = some ((r0, r1), (c0, c1)))
+    (hsub : ∀ bb i j, i < r1 - r0 → j < c1 - c0 → sub.den bb i j = base.den bb (r0 + i) (c0 + j)) :
+    ∀ b i j, i < re - rs → j < ce - cs →
+      (Opv.blockInter k sub).den b i j = (Opv.blockInter k base).den b (rs + i) (cs + j) := by
+  obtain ⟨e1, e2, e3, e4, _⟩ := blockInterAligned_some k rs re cs ce r0 r1 c0 c1 hal
+  subst e1 e2 e3 e4
+  intro b i j hi hj
+  have em : k * r1 - k * r0 = k * (r1 - r0) := (Nat.mul_sub k r1 r0).symm
+  have en : k * c1 - k * c0 = k * (c1 - c0) := (Nat.mul_sub k c1 c0).symm
+  exact blockInter_window k r0 r1 c0 c1 hk base sub hsub b i j (by omega) (by omega)
+
+example : blockInterAligned 3 3 9 0 6 = some ((1, 3), (0, 2)) := by decide
+example : blockInterAligned 3 3 9 0 3 = none := by decide
+
+/-- **`_getitem` result-operator constructions refine torch indexing** (Sum / ConstantMul / Matmul / Root overrides, any
+nesting of them, any selection lists `rows` / `cols` — slices via `sliceIndices`, 1-D tensors, ints as singleton lists —
+any batch map): every operator the modelled `_getitem` overrides can build out of correct leaf results has the shape of
+the selection and at every entry `(b, i, j)` the value `dense[bmap b, rows[i], cols[j]]` of the original operator. -/
+theorem getitem_slicePath_refines (bmap : List Nat → List Nat) (rows cols : List Nat) (op r : Opv)
+    (h : GetitemResult bmap rows cols op r) :
+    r.R = rows.length ∧ r.C = cols.length ∧
+    ∀ b i j, i < rows.length → j < cols.length → r.den b i j = op.den (bmap b) (rows.getD i 0) (cols.getD j 0) :=
+  getitemResult_sound bmap rows cols op r h
+
+/-- the relation is inhabited by a non-trivial nesting: `ConstantMul(Matmul(A, B))` sliced with rows `[2, 0]`, cols `[1]` -/
+example (c : List Nat → Int) (A B : Opv) (h : A.C = B.R) :
+    GetitemResult id [2, 0] [1] (Opv.constMul c (Opv.matmul 0 A B))
+      (Opv.constMulGetitem c id (Opv.matmulGetitem 2 (Opv.sel [2, 0] (List.range A.C) id A) (Opv.sel (List.range B.R) [1] id B))) :=
+  .constMul _ _ _ _ _ (.matmul _ _ _ _ _ _ _ _ h (.leaf _ _ _ _ rfl rfl (fun _ _ _ _ _ => rfl)) (.leaf _ _ _ _ rfl rfl (fun _ _ _ _ _ => rfl)))
+
+/-- **`InterpolatedLinearOperator._diagonal`, dense-root fast path** (any interpolation lists of any lengths, any rank of
+the root, any batch index, any nested root operator): `(left_interp(…, root) * left_interp(…, root)).sum(-1)` at
+position `k` equals entry `(k, k)` of the dense value `W_l (R Rᵀ) W_rᵀ` of the interpolated operator. -/
+theorem interpRoot_diagonal_refines (R C : Nat) (li ri : List Nat → Nat → List (Nat × Int)) (rt : Opv)
+    (b : List Nat) (k : Nat) :
+    (Opv.interpRoot R C li ri rt).dg b k = (Opv.interp R C li ri (Opv.root true rt)).den b k k := by
+  simp only [Opv.interpRoot, Opv.interp, Opv.root, interpRootDiag]
+  exact interpRootDiag_eq (li b k) (ri b k) (rt.den b) rt.C
+
+/-- `_get_indices` of the fast-path variant is the one of every Interpolated operator, so the refinement of
+`opv_getIndices_refines` carries over; with the theorem above: the variant refines its dense value. -/
+theorem interpRoot_refines (R C : Nat) (li ri : List Nat → Nat → List (Nat × Int)) (rt : Opv)
+    (h : Refines (Opv.interp R C li ri (Opv.root true rt))) : Refines (Opv.interpRoot R C li ri rt) :=
+  ⟨fun b i j hi hj => h.1 b i j hi hj, fun _ b k _ => interpRoot_diagonal_refines R C li ri rt b k⟩
+
+example : (Opv.interpRoot 2 2 (fun _ i => [(i, 2), (i + 1, 1)]) (fun _ j => [(j, 1), (j + 1, 3)])
+    (Opv.dense 3 2 (fun _ i j => (i : Int) + 2 * j + 1))).dg [] 1 = 324 := by decide
+
+/-- **the front end is total on its domain**: for EVERY operator, batch shape and index tuple that (1) has at most one
+ellipsis and not too many items, (2) passes the `[-size, size)` range check with positive step slices on non-empty dims,
+and (3) is dispatched to the tensor-index path by `row_col_are_absorbed`, the modelled `__getitem__` answers (no internal
+error), with `_compute_getitem_size` of the normalised index as shape. -/
+theorem frontEnd_total (op : Opv) (bdims : List Nat) (idx e : List Item)
+    (he : expandEllipsis (bdims ++ [op.R, op.C]).length idx = some e)
+    (hv : ∀ x ∈ List.zip (bdims ++ [op.R, op.C]) e, itemValid x = true ∧ 0 < x.1)
+    (habs : absorbedOf (normalise (List.zip (bdims ++ [op.R, op.C]) e)) = true) :
+    frontEnd op bdims idx = some (computeGetitemSize (normalise (List.zip (bdims ++ [op.R, op.C]) e)),
+                                  getitemOp op (normalise (List.zip (bdims ++ [op.R, op.C]) e))) := by
+  have hlen := expandEllipsis_length _ _ _ he
+  have hdl : (bdims ++ [op.R, op.C]).length = bdims.length + 2 := by simp
+  have hz : (List.zip (bdims ++ [op.R, op.C]) e).length = bdims.length + 2 := by
+    rw [List.length_zip, hlen, hdl]; omega
+  have h1 : (List.zip (bdims ++ [op.R, op.C]) e).all (fun x => itemValid x && decide (0 < x.1)) = true := by
+    rw [List.all_eq_true]; intro x hx; simp [hv x hx]
+  have g1 : ((List.zip (bdims ++ [op.R, op.C]) e).getD bdims.length (0, Item.ellipsis)).1 = op.R := by
+    have hi : bdims.length < (List.zip (bdims ++ [op.R, op.C]) e).length := by omega
+    rw [List.getD_eq_getElem?_getD, List.getElem?_eq_getElem hi]
+    simp [List.getElem_zip]
+  have g2 : ((List.zip (bdims ++ [op.R, op.C]) e).getD (bdims.length + 1) (0, Item.ellipsis)).1 = op.C := by
+    have hi : bdims.length + 1 < (List.zip (bdims ++ [op.R, op.C]) e).length := by omega
+    rw [List.getD_eq_getElem?_getD, List.getElem?_eq_getElem hi]
+    simp [List.getElem_zip, List.getElem_append_right]
+  unfold frontEnd
+  simp only [he, h1, hz, g1, g2, habs, decide_true, Bool.and_self, Bool.not_true, Bool.false_eq_true, if_false, if_true]
+
+/-- **total correctness of the tensor-index path**: on its whole domain (previous theorem) the front end returns exactly
+torch's shape and torch's values for the ORIGINAL index tuple (composition of `frontEnd_total` and `frontEnd_eq_torch`). -/
+theorem frontEnd_total_correct (op : Opv) (h : Built op) (bdims : List Nat) (idx e : List Item)
+    (he : expandEllipsis (bdims ++ [op.R, op.C]).length idx = some e)
+    (hv : ∀ x ∈ List.zip (bdims ++ [op.R, op.C]) e, itemValid x = true ∧ 0 < x.1)
+    (habs : absorbedOf (normalise (List.zip (bdims ++ [op.R, op.C]) e)) = true) :
+    frontEnd op bdims idx = some (specShape (List.zip (bdims ++ [op.R, op.C]) e),
+                                  denseGetitemOp op (List.zip (bdims ++ [op.R, op.C]) e)) := by
+  have ht := frontEnd_total op bdims idx e he hv habs
+  obtain ⟨e', he', hs, hvals⟩ := frontEnd_eq_torch op h bdims idx _ _ ht
+  rw [he] at he'
+  cases he'
+  rw [ht, hs, hvals]
+
+/-- **slice path against the torch spec**: when rows and columns are indexed by slices (any bounds: `None`, negative,
+over-long, stepped; ints arrive here as `slice(i, i+1)` by `intToSlice_selects`), every operator the modelled `_getitem`
+constructions build has torch's result size `sliceLen × sliceLen` (= `specShape`) and holds at `(i, j)` the dense entry at
+exactly the source coordinates `srcIndex` that the torch spec reads for result coordinate `(i, j)`. -/
+theorem getitem_slicePath_torch (bmap : List Nat → List Nat) (nR nC : Nat) (ra rb rc ca cb cc : Option Int) (op r : Opv)
+    (h : GetitemResult bmap (sliceIndices nR ra rb rc) (sliceIndices nC ca cb cc) op r) :
+    [r.R, r.C] = specShape [(nR, .slice ra rb rc), (nC, .slice ca cb cc)] ∧
+    ∀ b i j, i < sliceLen nR ra rb rc → j < sliceLen nC ca cb cc →
+      r.den b i j = op.den (bmap b)
+        ((srcIndex [(nR, .slice ra rb rc), (nC, .slice ca cb cc)] [i, j] []).getD 0 0)
+        ((srcIndex [(nR, .slice ra rb rc), (nC, .slice ca cb cc)] [i, j] []).getD 1 0) := by
+  obtain ⟨hR, hC, hd⟩ := getitemResult_sound bmap _ _ op r h
+  have lR : (sliceIndices nR ra rb rc).length = sliceLen nR ra rb rc := by simp [sliceIndices]
+  have lC : (sliceIndices nC ca cb cc).length = sliceLen nC ca cb cc := by simp [sliceIndices]
+  refine ⟨by simp [specShape, sliceLens, tensorShapes, hR, hC, lR, lC], fun b i j hi hj => ?_⟩
+  rw [hd b i j (by omega) (by omega)]
+  have eR : (sliceIndices nR ra rb rc).getD i 0 = sliceStart nR ra + i * sliceStep rc := by
+    simp [sliceIndices, List.getD_eq_getElem?_getD, hi]
+  have eC : (sliceIndices nC ca cb cc).getD j 0 = sliceStart nC ca + j * sliceStep cc := by
+    simp [sliceIndices, List.getD_eq_getElem?_getD, hj]
+  rw [eR, eC]
+  simp [srcIndex]
+
+/-- **translator obligation (slice path)**: the statements of the block-aligned shortcuts, of the guard chain in
+`BlockLinearOperator._getitem` and of the `_getitem` overrides of Sum / ConstantMul / Matmul / Root, regenerated from
+/repo on every run, are the ones the model above mirrors. -/
+theorem generated_slicepath_table : LinOp.Generated.C03SlicePath.table = [
+  ("BlockDiagLinearOperator._getitem_block_aligned", ["block_rows, block_cols = self.base_linear_op.shape[-2:]", "if row_start % block_rows or row_end % block_rows or col_start % block_cols or col_end % block_cols", "return None", "block_index = slice(row_start // block_rows, row_end // block_rows, None)", "if block_index != slice(col_start // block_cols, col_end // block_cols, None)", "return None", "noop = slice(None, None, None)", "new_base_linear_op = self.base_linear_op._getitem(noop, noop, *batch_indices, block_index)", "return self.__class__(new_base_linear_op, block_dim=-3)"]),
+  ("BlockInterleavedLinearOperator._getitem_block_aligned", ["num_blocks = self.num_blocks", "if row_start % num_blocks or col_start % num_blocks or row_end % num_blocks or col_end % num_blocks", "return None", "if row_end - row_start != col_end - col_start", "return None", "row_index = slice(row_start // num_blocks, row_end // num_blocks, None)", "col_index = slice(col_start // num_blocks, col_end // num_blocks, None)", "new_base_linear_op = self.base_linear_op._getitem(row_index, col_index, *batch_indices, slice(None, None, None))", "return self.__class__(new_base_linear_op, block_dim=-3)"]),
+  ("BlockLinearOperator._getitem", ["if _is_noop_index(row_index) and _is_noop_index(col_index)", "return self.__class__(self.base_linear_op._getitem(row_index, col_index, *batch_indices, _noop_index))", "if not isinstance(row_index, slice) or not isinstance(col_index, slice)", "return super()._getitem(row_index, col_index, *batch_indices)", "if row_index.step is not None or col_index.step is not None", "return super()._getitem(row_index, col_index, *batch_indices)", "num_rows, num_cols = self.matrix_shape", "row_start, row_end, _ = row_index.indices(num_rows)", "col_start, col_end, _ = col_index.indices(num_cols)", "res = self._getitem_block_aligned(row_start, row_end, col_start, col_end, batch_indices)", "if res is None", "return super()._getitem(row_index, col_index, *batch_indices)", "return res"]),
+  ("SumLinearOperator._getitem", ["results = [linear_op._getitem(row_index, col_index, *batch_indices) for linear_op in self.linear_ops]", "return SumLinearOperator(*results)"]),
+  ("ConstantMulLinearOperator._getitem", ["base_linear_op = self.base_linear_op._getitem(row_index, col_index, *batch_indices)", "constant = self._constant.expand(self.batch_shape)[batch_indices]", "return type(self)(base_linear_op=base_linear_op, constant=constant)"]),
+  ("MatmulLinearOperator._getitem", ["if torch.is_tensor(row_index) and torch.is_tensor(col_index)", "num_indices = row_index.numel()", "if num_indices > self.matrix_shape.numel()", "return to_linear_operator(self.to_dense())._getitem(row_index, col_index, *batch_indices)", "left_tensor = self.left_linear_op._getitem(row_index, _noop_index, *batch_indices)", "right_tensor = self.right_linear_op._getitem(_noop_index, col_index, *batch_indices)", "res = MatmulLinearOperator(left_tensor, right_tensor)", "return res"]),
+  ("RootLinearOperator._getitem", ["if torch.is_tensor(row_index) and torch.is_tensor(col_index)", "num_indices = row_index.numel()", "if num_indices > self.matrix_shape.numel()", "return to_linear_operator(self.to_dense())._getitem(row_index, col_index, *batch_indices)", "left_tensor = self.root._getitem(row_index, _noop_index, *batch_indices)", "if _equal_indices(row_index, col_index)", "res = self.__class__(left_tensor)", "right_tensor = self.root._getitem(col_index, _noop_index, *batch_indices)", "res = MatmulLinearOperator(left_tensor, right_tensor.mT)", "return res"])] := by decide +kernel
 
 end LinOp.C03
